@@ -120,8 +120,10 @@ def _patch_list() -> list:
 
 def _write_report(rows, only):
     """Rewritten after every patch, so a run that is cut short still leaves its results."""
+    name = "sensitivity_report.json"
     if only:
-        return
+        # a partial re-run (VERIF_ONLY=<substring>) is kept next to the full report, never over it
+        name = "sensitivity_report.partial-%s.json" % "".join(c if c.isalnum() or c in "-_" else "_" for c in only)
     try:
         head = subprocess.run(["git", "-C", VERIF_DIR, "rev-parse", "--short", "HEAD"], capture_output=True, text=True).stdout.strip()
     except OSError:
@@ -131,7 +133,9 @@ def _write_report(rows, only):
         summary[r["result"]] = summary.get(r["result"], 0) + 1
     report = {"verif_commit": head, "patches_run": len(rows), "summary": summary,
               "rows": [{k: r.get(k) for k in ("id", "prop", "expect", "result", "tests", "detail")} for r in rows]}
-    with open(os.path.join(VERIF_DIR, "sensitivity_report.json"), "w") as f:
+    if only:
+        report["only"] = only
+    with open(os.path.join(VERIF_DIR, name), "w") as f:
         json.dump(report, f, indent=1, sort_keys=True)
         f.write("\n")
 
